@@ -1731,14 +1731,403 @@ Proof.
     + eapply ext_get; [exact Xb|exact Gc'].
     + lia.
     + lia.
-    + eapply fr_bound; eauto.
-    + eapply fr_bound; eauto.
-    + eapply fr_bound; eauto.
-    + eapply fr_bound; eauto.
-    + eapply fr_bound; eauto.
+    + exact (fr_bound h ha hb ec ec' Xa T1 Fe).
+    + exact (fr_bound h ha hb mean mean' Xa T2 Fm).
+    + exact (fr_bound h ha hb ti ti' Xa T3 Ft).
+    + exact (fr_bound h ha hb cc cc' Xa T4 Fc).
+    + exact (fr_bound h ha hb ic ic' Xa T5 Fi).
   - apply WF_SD. exists a', cl', (Some lab'), cost, data', K, m, lam', beta', cs'. auto.
   - rewrite (SD_labels _ _ _ _ _ _ _ _ _ _ _ _ SD'), (SD_labels _ _ _ _ _ _ _ _ _ _ _ _ HSD).
     rewrite El. reflexivity.
   - rewrite (SD_clusters _ _ _ _ _ _ _ _ _ _ _ _ SD'), (SD_clusters _ _ _ _ _ _ _ _ _ _ _ _ HSD).
     apply members_copy; auto.
+Qed.
+
+(* ------------------------------------------------------------------ *)
+(* Typed holds in every reachable configuration (global heap typing)   *)
+(* ------------------------------------------------------------------ *)
+
+Definition otyped (h : heap) (o : obj) : Prop :=
+  match o with
+  | OCluster _ ec mean ti cc ic _ => oarr h ec /\ oarr h mean /\ oarr h ti /\ oarr h cc /\ oarr h ic
+  | OState _ _ _ _ data => exists c, get h data = Some (OArr c)
+  | OArgs _ _ lam beta => oarr h lam /\ oarr h beta
+  | _ => True
+  end.
+
+Definition HT (h : heap) : Prop := forall l o, get h l = Some o -> otyped h o.
+
+Definition arrpres (h h' : heap) : Prop :=
+  forall l c, get h l = Some (OArr c) -> get h' l = Some (OArr c).
+
+Lemma arrpres_refl h : arrpres h h.
+Proof. intros l c H; auto. Qed.
+
+Lemma arrpres_trans h1 h2 h3 : arrpres h1 h2 -> arrpres h2 h3 -> arrpres h1 h3.
+Proof. intros A B l c H. auto. Qed.
+
+Lemma ext_arrpres h h' : ext h h' -> arrpres h h'.
+Proof. intros E l c H. eapply ext_get; eauto. Qed.
+
+Lemma oarr_pres h h' x : arrpres h h' -> oarr h x -> oarr h' x.
+Proof. intros A H l Hl. destruct (H l Hl) as [c Hc]. exists c. auto. Qed.
+
+Lemma otyped_pres h h' o : arrpres h h' -> otyped h o -> otyped h' o.
+Proof.
+  intros A. destruct o; cbn; auto.
+  - intros [H1 H2]. split; eapply oarr_pres; eauto.
+  - intros (H1 & H2 & H3 & H4 & H5). repeat split; eapply oarr_pres; eauto.
+  - intros [c Hc]. exists c. auto.
+Qed.
+
+Lemma HT_Typed h s : HT h -> Typed h s.
+Proof.
+  intros HH a cl lab cost data Hs. split; [|split].
+  - exact (HH _ _ Hs).
+  - intros K m lam beta Ha. exact (HH _ _ Ha).
+  - intros c _ mem ec mean ti cc ic ld Hc. exact (HH _ _ Hc).
+Qed.
+
+Lemma HT_alloc h o : HT h -> otyped h o -> HT (h ++ [o]) /\ arrpres h (h ++ [o]).
+Proof.
+  intros HH Ho.
+  assert (A : arrpres h (h ++ [o])) by (apply ext_arrpres, ext_app).
+  split; auto. intros x ox G.
+  destruct (lt_dec x (length h)) as [Hlt|Hge].
+  - rewrite get_app_old in G by auto. eapply otyped_pres; eauto.
+  - pose proof (get_lt _ _ _ G) as Hx. rewrite app_length in Hx. cbn in Hx.
+    assert (x = length h) by lia. subst x. rewrite get_app_new in G. inversion G; subst.
+    eapply otyped_pres; eauto.
+Qed.
+
+Lemma get_upd_cases h l o x o' :
+  get (upd h l o) x = Some o' -> (x = l /\ o' = o) \/ (x <> l /\ get h x = Some o').
+Proof.
+  intros G. destruct (Nat.eq_dec x l) as [->|N].
+  - left. split; auto.
+    assert (l < length h) by (rewrite <- (length_upd h l o); eapply get_lt; eauto).
+    rewrite get_upd_same in G by auto. congruence.
+  - right. rewrite get_upd_other in G; auto.
+Qed.
+
+Lemma HT_upd h l o o' : HT h -> get h l = Some o -> tag o <> 1 -> (otyped h o -> otyped h o') ->
+  HT (upd h l o') /\ arrpres h (upd h l o').
+Proof.
+  intros HH Hl Ht Himp.
+  assert (A : arrpres h (upd h l o')).
+  { intros x c G. rewrite get_upd_other; auto. intros ->. rewrite Hl in G.
+    inversion G; subst. cbn in Ht. congruence. }
+  split; auto. intros x ox G. apply get_upd_cases in G. destruct G as [[-> ->]|[N G]].
+  - eapply otyped_pres; eauto.
+  - eapply otyped_pres; eauto.
+Qed.
+
+Definition HTA (h h' : heap) : Prop := HT h' /\ arrpres h h'.
+
+Lemma HTA_refl h : HT h -> HTA h h.
+Proof. intros; split; auto. apply arrpres_refl. Qed.
+
+Lemma HTA_trans h1 h2 h3 : HTA h1 h2 -> HTA h2 h3 -> HTA h1 h3.
+Proof. intros [_ A] [H B]. split; auto. eapply arrpres_trans; eauto. Qed.
+
+Lemma set_members_HT h c new : HT h -> HTA h (set_members h c new).
+Proof.
+  intros HH. unfold set_members.
+  destruct (get h c) as [[| | | |mem ec mean ti cc ic ld|]|] eqn:E; try (apply HTA_refl; assumption).
+  assert (Hgen : forall xs, HTA h (upd (h ++ [OList xs]) c (OCluster (length h) ec mean ti cc ic ld))).
+  { intros xs. destruct (HT_alloc h (OList xs) HH I) as [H1 A1].
+    assert (E1 : get (h ++ [OList xs]) c = Some (OCluster mem ec mean ti cc ic ld)).
+    { rewrite get_app_old; auto. eapply get_lt; eauto. }
+    destruct (HT_upd _ c _ (OCluster (length h) ec mean ti cc ic ld) H1 E1 ltac:(cbn; lia) (fun x => x))
+      as [H2 A2].
+    split; auto. eapply arrpres_trans; eauto. }
+  unfold alloc. cbv beta iota.
+  destruct (length new =? 0); [apply Hgen|].
+  destruct (list_eqb new (get_list h mem)); [apply HTA_refl; auto|apply Hgen].
+Qed.
+
+Lemma update_membership_HT labels : forall cs h k, HT h -> HTA h (update_membership h cs labels k).
+Proof.
+  induction cs as [|c r IH]; intros h k HH; cbn [update_membership]; [apply HTA_refl; auto|].
+  pose proof (set_members_HT h c (positions labels k) HH) as H1.
+  eapply HTA_trans; [exact H1|]. apply IH. apply H1.
+Qed.
+
+Lemma clear_membership_HT : forall cs h, HT h -> HTA h (clear_membership h cs).
+Proof.
+  induction cs as [|c r IH]; intros h HH; cbn [clear_membership]; [apply HTA_refl; auto|].
+  pose proof (set_members_HT h c [] HH) as H1.
+  eapply HTA_trans; [exact H1|]. apply IH. apply H1.
+Qed.
+
+Lemma set_labels_HT h s l : HT h -> HTA h (set_labels h s l).
+Proof.
+  intros HH. unfold set_labels.
+  destruct (get h s) as [[| | | | |a cl old cost data]|] eqn:E; try (apply HTA_refl; assumption).
+  cbv zeta.
+  destruct (match old with Some o => list_eqb (get_list h l) (get_list h o) | None => false end);
+    [apply HTA_refl; auto|].
+  pose proof (HT_upd h s _ (OState a cl (Some l) cost data) HH E ltac:(cbn; lia) (fun x => x)) as H1.
+  eapply HTA_trans; [exact H1|].
+  destruct (length (get_list h l) =? 0).
+  - apply clear_membership_HT. apply H1.
+  - apply update_membership_HT. apply H1.
+Qed.
+
+Lemma new_cluster_HT h ms ec mean ti cc ic ld h' c' :
+  HT h -> otyped h (OCluster 0 ec mean ti cc ic ld) ->
+  new_cluster h ms ec mean ti cc ic ld = (h', c') -> HTA h h'.
+Proof.
+  intros HH Ho. unfold new_cluster, alloc. intros E. inversion E; subst. clear E.
+  destruct (HT_alloc h (OList ms) HH I) as [H1 A1].
+  assert (Ho1 : otyped (h ++ [OList ms]) (OCluster (length h) ec mean ti cc ic ld)).
+  { eapply otyped_pres in Ho; [|exact A1]. exact Ho. }
+  destruct (HT_alloc _ _ H1 Ho1) as [H2 A2].
+  split; auto. eapply arrpres_trans; eauto.
+Qed.
+
+Lemma cluster_shallow_copy_HT h c h' c' : HT h -> cluster_shallow_copy h c = (h', c') -> HTA h h'.
+Proof.
+  intros HH. unfold cluster_shallow_copy.
+  destruct (get h c) as [[| | | |mem ec mean ti cc ic ld|]|] eqn:E;
+    try (intros Eq; inversion Eq; subst; apply HTA_refl; assumption).
+  apply new_cluster_HT; auto. exact (HH _ _ E).
+Qed.
+
+Lemma copy_arr_HT h a h' a' :
+  HT h -> copy_arr h a = (h', a') -> HTA h h' /\ (oarr h a -> oarr h' a').
+Proof.
+  intros HH. unfold copy_arr, alloc. destruct a as [l|].
+  - destruct (get h l) as [[| c | | | |]|] eqn:E; intros Eq; inversion Eq; subst;
+      try (split; [apply HTA_refl; assumption|auto]).
+    split; [apply HT_alloc; cbn; auto|].
+    intros _ l0 El0. inversion El0; subst. exists c. apply get_app_new.
+  - intros Eq; inversion Eq; subst. split; [apply HT_alloc; cbn; auto|].
+    intros _ l0 El0. inversion El0; subst. exists []. apply get_app_new.
+Qed.
+
+Lemma cluster_deep_copy_HT h c h' c' : HT h -> cluster_deep_copy h c = (h', c') -> HTA h h'.
+Proof.
+  intros HH. unfold cluster_deep_copy.
+  destruct (get h c) as [[| | | |mem ec mean ti cc ic ld|]|] eqn:E;
+    try (intros Eq; inversion Eq; subst; apply HTA_refl; assumption).
+  destruct (HH _ _ E) as (T1 & T2 & T3 & T4 & T5).
+  destruct (copy_arr h cc) as [h1 cc'] eqn:E1.
+  destruct (copy_arr h1 ec) as [h2 ec'] eqn:E2.
+  destruct (copy_arr h2 ic) as [h3 ic'] eqn:E3.
+  destruct (copy_arr h3 mean) as [h4 mean'] eqn:E4.
+  destruct (copy_arr h4 ti) as [h5 ti'] eqn:E5.
+  intros E6.
+  destruct (copy_arr_HT _ _ _ _ HH E1) as [[HH1 A1] F1].
+  destruct (copy_arr_HT _ _ _ _ HH1 E2) as [[HH2 A2] F2].
+  destruct (copy_arr_HT _ _ _ _ HH2 E3) as [[HH3 A3] F3].
+  destruct (copy_arr_HT _ _ _ _ HH3 E4) as [[HH4 A4] F4].
+  destruct (copy_arr_HT _ _ _ _ HH4 E5) as [[HH5 A5] F5].
+  pose proof (arrpres_trans _ _ _ A1 A2) as A02.
+  pose proof (arrpres_trans _ _ _ A02 A3) as A03.
+  pose proof (arrpres_trans _ _ _ A03 A4) as A04.
+  pose proof (arrpres_trans _ _ _ A04 A5) as A05.
+  pose proof A5 as A45.
+  pose proof (arrpres_trans _ _ _ A4 A5) as A35.
+  pose proof (arrpres_trans _ _ _ A3 A35) as A25.
+  pose proof (arrpres_trans _ _ _ A2 A25) as A15.
+  eapply HTA_trans; [split; [exact HH5|exact A05]|].
+  eapply new_cluster_HT; [exact HH5| |exact E6].
+  cbn. split; [|split; [|split; [|split]]].
+  - eapply oarr_pres; [exact A25|]. apply F2. eapply oarr_pres; eauto.
+  - eapply oarr_pres; [exact A45|]. apply F4. eapply oarr_pres; eauto.
+  - apply F5. eapply oarr_pres; eauto.
+  - eapply oarr_pres; [exact A15|]. apply F1. auto.
+  - eapply oarr_pres; [exact A35|]. apply F3. eapply oarr_pres; eauto.
+Qed.
+
+Lemma fresh_arrays_typed h1 o1 o2 c1 ml e1 e2 e1' e2' ti cc ic ld ld' ti' cc' :
+  HT h1 -> get h1 c1 = Some (OCluster ml e1 e2 ti cc ic ld) ->
+  otyped ((h1 ++ [o1]) ++ [o2]) (OCluster ml e1' e2' ti' cc' ic ld') ->
+  tag o1 <= 1 -> tag o2 <= 1 ->
+  HTA h1 (upd ((h1 ++ [o1]) ++ [o2]) c1 (OCluster ml e1' e2' ti' cc' ic ld')).
+Proof.
+  intros HH1 G Ho T1 T2.
+  assert (Ho1 : otyped h1 o1) by (destruct o1; cbn in *; auto; lia).
+  destruct (HT_alloc h1 o1 HH1 Ho1) as [HH2 A2].
+  assert (Ho2 : otyped (h1 ++ [o1]) o2) by (destruct o2; cbn in *; auto; lia).
+  destruct (HT_alloc _ o2 HH2 Ho2) as [HH3 A3].
+  assert (G3 : get ((h1 ++ [o1]) ++ [o2]) c1 = Some (OCluster ml e1 e2 ti cc ic ld)).
+  { eapply ext_get; [|exact G]. eapply ext_trans; apply ext_app. }
+  destruct (HT_upd _ c1 _ (OCluster ml e1' e2' ti' cc' ic ld') HH3 G3 ltac:(cbn; lia) (fun _ => Ho))
+    as [HH4 A4].
+  split; auto. eapply arrpres_trans; [exact A2|]. eapply arrpres_trans; eauto.
+Qed.
+
+Lemma oarr_new1 h o1 o2 c : o1 = OArr c -> oarr ((h ++ [o1]) ++ [o2]) (Some (length h)).
+Proof.
+  intros -> l El. inversion El; subst. exists c.
+  rewrite get_app_old by (rewrite app_length; cbn; lia). apply get_app_new.
+Qed.
+
+Lemma oarr_new2 h o1 o2 c : o2 = OArr c -> oarr ((h ++ [o1]) ++ [o2]) (Some (length (h ++ [o1]))).
+Proof. intros -> l El. inversion El; subst. exists c. apply get_app_new. Qed.
+
+Lemma stat_cluster_HT b h c h' c' : HT h -> stat_cluster b h c = (h', c') -> HTA h h'.
+Proof.
+  intros HH. unfold stat_cluster. cbv zeta.
+  destruct (cluster_shallow_copy h c) as [h1 c1] eqn:E1.
+  pose proof (cluster_shallow_copy_HT _ _ _ _ HH E1) as [HH1 A1].
+  destruct (get h1 c1) as [[| | | |ml e1 e2 ti cc ic ld|]|] eqn:G;
+    try (intros Eq; inversion Eq; subst; split; assumption).
+  unfold alloc. cbv beta iota. intros Eq. inversion Eq; subst h' c'. clear Eq.
+  eapply HTA_trans; [split; eassumption|].
+  eapply fresh_arrays_typed; [exact HH1|exact G| |cbn; lia|cbn; lia].
+  pose proof (HH1 _ _ G) as (_ & _ & T3 & T4 & T5).
+  assert (A : arrpres h1 ((h1 ++ [OArr (1 :: (if b then 1 else 0) ::
+       (if length (cluster_members h c) =? 1 then [] else cluster_members h c))]) ++
+       [OArr (2 :: cluster_members h c)])).
+  { apply ext_arrpres. eapply ext_trans; apply ext_app. }
+  cbn. split; [eapply oarr_new1; reflexivity|]. split; [eapply oarr_new2; reflexivity|].
+  repeat split; eapply oarr_pres; eauto.
+Qed.
+
+Lemma opt_cluster_HT mrf h kc h' c' : HT h -> opt_cluster mrf h kc = (h', c') -> HTA h h'.
+Proof.
+  intros HH. destruct kc as [k c]. unfold opt_cluster.
+  destruct (cluster_shallow_copy h c) as [h1 c1] eqn:E1.
+  pose proof (cluster_shallow_copy_HT _ _ _ _ HH E1) as [HH1 A1].
+  destruct (get h1 c1) as [[| | | |ml e1 e2 ti cc ic ld|]|] eqn:G;
+    try (intros Eq; inversion Eq; subst; split; assumption).
+  unfold alloc. cbv beta iota. intros Eq. inversion Eq; subst h' c'. clear Eq.
+  eapply HTA_trans; [split; eassumption|].
+  eapply fresh_arrays_typed; [exact HH1|exact G| |cbn; lia|cbn; lia].
+  pose proof (HH1 _ _ G) as (T1 & T2 & _ & _ & T5).
+  assert (A : arrpres h1 ((h1 ++ [OArr (3 :: mrf k)]) ++ [OArr (4 :: mrf k)])).
+  { apply ext_arrpres. eapply ext_trans; apply ext_app. }
+  cbn. split; [eapply oarr_pres; eauto|]. split; [eapply oarr_pres; eauto|].
+  split; [eapply oarr_new1; reflexivity|]. split; [eapply oarr_new2; reflexivity|].
+  eapply oarr_pres; eauto.
+Qed.
+
+Lemma map_heap_idx_HT f
+  (Hf : forall h kc h' c', HT h -> f h kc = (h', c') -> HTA h h') :
+  forall cs h k h' cs', HT h -> map_heap_idx f h k cs = (h', cs') -> HTA h h'.
+Proof.
+  induction cs as [|c r IH]; intros h k h' cs' HH E; cbn [map_heap_idx] in E.
+  - inversion E; subst. apply HTA_refl; auto.
+  - destruct (f h (k, c)) as [h1 c1] eqn:E1.
+    destruct (map_heap_idx f h1 (S k) r) as [h2 r2] eqn:E2. inversion E; subst. clear E.
+    pose proof (Hf _ _ _ _ HH E1) as H1. eapply HTA_trans; [exact H1|].
+    eapply IH; eauto. apply H1.
+Qed.
+
+Lemma map_heap_HT f (Hf : forall h c h' c', HT h -> f h c = (h', c') -> HTA h h') cs h h' cs' :
+  HT h -> map_heap f h cs = (h', cs') -> HTA h h'.
+Proof.
+  rewrite (map_heap_idx_eq f cs h 0). apply map_heap_idx_HT.
+  intros h0 [k c] h1 c1 HH E. cbn in E. eauto.
+Qed.
+
+Lemma state_shallow_copy_HT h s h' s' : HT h -> state_shallow_copy h s = (h', s') -> HTA h h'.
+Proof.
+  intros HH. unfold state_shallow_copy.
+  destruct (get h s) as [[| | | | |a cl lab cost data]|] eqn:E;
+    try (intros Eq; inversion Eq; subst; apply HTA_refl; assumption).
+  unfold alloc. intros Eq. inversion Eq; subst. clear Eq.
+  destruct (HT_alloc h (ORefs (get_refs h cl)) HH I) as [H1 A1].
+  assert (Ho : otyped (h ++ [ORefs (get_refs h cl)]) (OState a (length h) lab cost data)).
+  { eapply (otyped_pres h _ (OState a cl lab cost data)); [exact A1|]. exact (HH _ _ E). }
+  destruct (HT_alloc _ _ H1 Ho) as [H2 A2]. split; auto. eapply arrpres_trans; eauto.
+Qed.
+
+Lemma cp_arr_HT h x h' x' : HT h -> cp_arr h x = (h', x') -> HTA h h' /\ (oarr h x -> oarr h' x').
+Proof.
+  intros HH. unfold cp_arr, alloc. destruct x as [l|].
+  - destruct (get h l) as [[| c | | | |]|] eqn:E; intros Eq; inversion Eq; subst;
+      try (split; [apply HTA_refl; assumption|auto]).
+    split; [apply HT_alloc; cbn; auto|].
+    intros _ l0 El0. inversion El0; subst. exists c. apply get_app_new.
+  - intros Eq; inversion Eq; subst. split; [apply HTA_refl; auto|auto].
+Qed.
+
+Lemma args_deep_copy_HT h a h' a' : HT h -> args_deep_copy h a = (h', a') -> HTA h h'.
+Proof.
+  intros HH. rewrite args_deep_copy_eq.
+  destruct (get h a) as [[| | |K m lam beta| |]|] eqn:E;
+    try (intros Eq; inversion Eq; subst; apply HTA_refl; assumption).
+  destruct (cp_arr h lam) as [h1 lam'] eqn:E1.
+  destruct (cp_arr h1 beta) as [h2 beta'] eqn:E2.
+  unfold alloc. intros Eq. inversion Eq; subst. clear Eq.
+  destruct (HH _ _ E) as [T1 T2].
+  destruct (cp_arr_HT _ _ _ _ HH E1) as [[HH1 A1] F1].
+  destruct (cp_arr_HT _ _ _ _ HH1 E2) as [[HH2 A2] F2].
+  assert (Ho : otyped h2 (OArgs K m lam' beta')).
+  { cbn. split; [eapply oarr_pres; [exact A2|]; auto|]. apply F2. eapply oarr_pres; eauto. }
+  destruct (HT_alloc _ _ HH2 Ho) as [H3 A3]. split; auto.
+  eapply arrpres_trans; [exact A1|]. eapply arrpres_trans; eauto.
+Qed.
+
+Lemma state_deep_copy_HT h s h' s' : HT h -> state_deep_copy h s = (h', s') -> HTA h h'.
+Proof.
+  intros HH. unfold state_deep_copy.
+  destruct (get h s) as [[| | | | |a cl [lb|] cost data]|] eqn:E;
+    try (intros Eq; inversion Eq; subst; apply HTA_refl; assumption).
+  destruct (map_heap cluster_deep_copy h (get_refs h cl)) as [h1 cs'] eqn:E1.
+  destruct (args_deep_copy h1 a) as [h2 a'] eqn:E2.
+  unfold alloc at 1. cbv beta iota.
+  destruct (copy_arr (h2 ++ [OList (get_list h lb)]) (Some data)) as [h4 data'] eqn:E4.
+  unfold alloc. cbv beta iota. intros Eq. inversion Eq; subst h' s'. clear Eq.
+  pose proof (map_heap_HT _ cluster_deep_copy_HT _ _ _ _ HH E1) as [HH1 A1].
+  pose proof (args_deep_copy_HT _ _ _ _ HH1 E2) as [HH2 A2].
+  destruct (HT_alloc h2 (OList (get_list h lb)) HH2 I) as [HH3 A3].
+  destruct (copy_arr_HT _ _ _ _ HH3 E4) as [[HH4 A4] F4].
+  destruct (HT_alloc h4 (ORefs cs') HH4 I) as [HH5 A5].
+  pose proof (arrpres_trans _ _ _ A1 A2) as A02.
+  pose proof (arrpres_trans _ _ _ A02 A3) as A03.
+  pose proof (arrpres_trans _ _ _ A03 A4) as A04.
+  pose proof (arrpres_trans _ _ _ A04 A5) as A05.
+  destruct (HH _ _ E) as [c Hc].
+  assert (Ho : otyped (h4 ++ [ORefs cs'])
+                 (OState a' (length h4) (Some (length h2)) cost
+                         (match data' with Some d => d | None => data end))).
+  { cbn. destruct data' as [d|].
+    - destruct F4 with (l := d) as [c0 Hc0]; auto.
+      + intros l El. inversion El; subst. exists c. apply A03; auto.
+      + exists c0. apply A5; auto.
+    - exists c. apply A05; auto. }
+  destruct (HT_alloc _ _ HH5 Ho) as [HH6 A6]. split; auto. eapply arrpres_trans; eauto.
+Qed.
+
+Lemma oarr_None h : oarr h None.
+Proof. intros l El. discriminate. Qed.
+
+Lemma empty_clusters_HT : forall K h h' cs, HT h -> empty_clusters h K = (h', cs) -> HTA h h'.
+Proof.
+  induction K as [|K IH]; intros h h' cs HH E; cbn [empty_clusters] in E.
+  - inversion E; subst. apply HTA_refl; auto.
+  - destruct (new_cluster h [] None None None None None None) as [h1 c1] eqn:E1.
+    destruct (empty_clusters h1 K) as [h2 r] eqn:E2. inversion E; subst. clear E.
+    assert (H1 : HTA h h1).
+    { eapply new_cluster_HT; eauto. cbn. repeat split; apply oarr_None. }
+    eapply HTA_trans; [exact H1|]. eapply IH; eauto. apply H1.
+Qed.
+
+Lemma empty_model_HT h a K data h' s' :
+  HT h -> (exists c, get h data = Some (OArr c)) -> empty_model h a K data = (h', s') -> HT h'.
+Proof.
+  intros HH [c Hc]. unfold empty_model.
+  destruct (empty_clusters h K) as [h1 cs] eqn:E1. unfold alloc. cbv beta iota.
+  intros Eq. inversion Eq; subst. clear Eq.
+  destruct (empty_clusters_HT _ _ _ _ HH E1) as [HH1 A1].
+  destruct (HT_alloc h1 (ORefs cs) HH1 I) as [HH2 A2].
+  apply HT_alloc; auto. cbn. exists c. auto.
+Qed.
+
+Lemma init_HT K m la ba : HT (fst (init K m la ba)).
+Proof.
+  destruct (init K m la ba) as [h s] eqn:E. cbn [fst].
+  unfold init, alloc in E.
+  destruct la, ba; cbv beta iota in E; cbn [app length] in E;
+    (eapply empty_model_HT in E; [exact E| |eexists; reflexivity]);
+    intros l o G; unfold get in G;
+    repeat (destruct l as [|l];
+            [cbn in G; inversion G; subst; clear G; cbn; try exact I;
+             split; intros l0 El0; inversion El0; subst; eexists; reflexivity|]);
+    cbn in G; destruct l; discriminate.
 Qed.
